@@ -1,6 +1,6 @@
 (* C15 — An Ask returns its own reply or an error, and an in-time reply is never lost.
    Statements only. Model: C15/Model.v (fx = false: the Ask paths as they exist; fx = true: with
-   fixes/C15-ask-reply-channel.diff). Proofs: C15/Proofs.v. checks/C15.py decides from the behaviour
+   fixes/C15-ask-reply-channel.diff). Proofs: C15/Proofs.v (witnesses), C15/Fixed.v (invariant). checks/C15.py decides from the behaviour
    of the instrumented real code which shape the tree has, and replays its scripted runs through
    that model. *)
 From Coq Require Import List Arith Bool.
@@ -29,27 +29,42 @@ Theorem C15_ctx_reuse_refuted : exists nresps ls,
   results s 2 = [Some (Some 0); Some None] /\ replied_in_time (asks s 1) = true.
 Proof. exists [1; 1], w_stomp. exact stomp_witness. Qed.
 
-(* ================================================================ the repaired Ask paths (fx = true) *)
+(* ================================================================ what does hold *)
 (* For any number of Asks, every interleaving of askers, handlers (calling Response any number of
    times), deadlines and context recycling, every answer of the channel and context pools
-   ([reach]: inductive closure, no bound). Guard of the `_partial` names: fx = true, i.e. the asker
-   does not touch the ReceiveContext after the enqueue, re-pools the channel only after it took the
-   reply, and polls the channel on the timeout/cancel branch. *)
+   ([reach fx]: inductive closure of the steps [allowed fx], no bound).
+
+   The guard of the `_partial` names is the predicate [allowed]:
+     fx = false  (the Ask paths as they exist): executions in which no Ask takes the timeout/cancel
+                 branch of its select, and a ReceiveContext is recycled only after its Ask has
+                 returned. The three refutations above each leave this set by exactly one of these.
+     fx = true   (asker does not touch the ReceiveContext after the enqueue, re-pools the channel only
+                 after it took the reply, polls the channel on the timeout/cancel branch): ALL
+                 executions. *)
+
+Example C15_guard_satisfiable_as_is :
+  allowed false (init [1]) (LAsker 0 None SelReply) /\ forall s l, allowed true s l.
+Proof. split; [now right|intros; now left]. Qed.
 
 (* An Ask that returns a reply returns the reply to its own request. *)
-Theorem C15_no_cross_delivery_partial : forall nresps s i v,
-  reach nresps s -> result s i = Some (Some v) -> v = i.
-Proof. exact fixed_no_cross. Qed.
+Theorem C15_no_cross_delivery_partial : forall fx nresps s i v,
+  reach fx nresps s -> result s i = Some (Some v) -> v = i.
+Proof. exact proto_no_cross. Qed.
 
 (* An Ask does not fail when the handler's (first) Response call returned before the deadline. *)
-Theorem C15_in_time_reply_returned_partial : forall nresps s i,
-  reach nresps s -> result s i = Some None -> replied_in_time (asks s i) = false.
-Proof. exact fixed_in_time. Qed.
+Theorem C15_in_time_reply_returned_partial : forall fx nresps s i,
+  reach fx nresps s -> result s i = Some None -> replied_in_time (asks s i) = false.
+Proof. exact proto_in_time. Qed.
 
 (* Together: whatever the Ask returns after an in-time Response, it is exactly that reply. *)
-Theorem C15_own_reply_partial : forall nresps s i r,
-  reach nresps s -> result s i = Some r -> replied_in_time (asks s i) = true -> r = Some i.
-Proof. exact fixed_reply_returned. Qed.
+Theorem C15_own_reply_partial : forall fx nresps s i r,
+  reach fx nresps s -> result s i = Some r -> replied_in_time (asks s i) = true -> r = Some i.
+Proof. exact proto_reply_returned. Qed.
+
+(* The Ask paths as they exist, on the guarded executions, never return an error. *)
+Theorem C15_as_is_no_failure_partial : forall nresps s i,
+  reach false nresps s -> result s i <> Some None.
+Proof. exact asis_never_fails. Qed.
 
 Print Assumptions C15_cross_refuted.
 Print Assumptions C15_lost_refuted.
@@ -57,3 +72,4 @@ Print Assumptions C15_ctx_reuse_refuted.
 Print Assumptions C15_no_cross_delivery_partial.
 Print Assumptions C15_in_time_reply_returned_partial.
 Print Assumptions C15_own_reply_partial.
+Print Assumptions C15_as_is_no_failure_partial.
